@@ -128,6 +128,10 @@ fn main() {
             umverif::c20::run(&mut rep);
             rep.finish()
         }
+        "C11" => {
+            umverif::c11::run(&mut rep);
+            rep.finish()
+        }
         "C14" => {
             umverif::c14::run(&mut rep);
             rep.finish()
